@@ -41,27 +41,27 @@ def _tier(ctx):
     q = ctx.tier == "quick"
     return {
         "q": q,
-        "a2_T": 12 if q else 40,
-        "a2_T32": 8 if q else 10,
-        "s2_T": 24 if q else 40,
+        "a2_T": 10 if q else 40,
+        "a2_T32": 6 if q else 10,
+        "s2_T": 20 if q else 40,
         "s2_T32": 10,
-        "band": (25, 40) if q else None,  # high-multiplicity band (rows exhaustive, few cols) on top of s2_T
-        "s3_T": 9 if q else 14,
-        "s3_T32": 6 if q else 8,
-        "kk_all": {4: 5, 5: 4, 6: 3, 7: 3, 8: 3} if q else {4: 8, 5: 6, 6: 5, 7: 4, 8: 4},
-        "kk_T": 6 if q else 8,
-        "rect": {(1, 1): 40, (1, 2): 24 if q else 40, (2, 1): 24 if q else 40, (1, 3): 10 if q else 14, (3, 1): 10 if q else 14,
-                 (2, 3): 7 if q else 10, (3, 2): 7 if q else 10, (2, 4): 5 if q else 7, (4, 2): 5 if q else 7},
-        "lap": {(2, 2): 16 if q else 36, (3, 3): 6 if q else 9, (2, 3): 5 if q else 8, (3, 2): 5 if q else 8, (4, 4): 3 if q else 5, (1, 1): 36,
-                (1, 2): 12 if q else 34, (2, 1): 12 if q else 34},
+        "band": (21, 40) if q else None,  # high-multiplicity band (rows exhaustive, few cols) on top of s2_T
+        "s3_T": 8 if q else 14,
+        "s3_T32": 5 if q else 8,
+        "kk_all": {4: 4, 5: 3, 6: 3, 7: 2, 8: 2} if q else {4: 8, 5: 6, 6: 5, 7: 4, 8: 4},
+        "kk_T": 5 if q else 8,
+        "rect": {(1, 1): 40, (1, 2): 20 if q else 40, (2, 1): 20 if q else 40, (1, 3): 8 if q else 14, (3, 1): 8 if q else 14,
+                 (2, 3): 6 if q else 10, (3, 2): 6 if q else 10, (2, 4): 4 if q else 7, (4, 2): 4 if q else 7},
+        "lap": {(2, 2): 12 if q else 36, (3, 3): 5 if q else 9, (2, 3): 4 if q else 8, (3, 2): 4 if q else 8, (4, 4): 3 if q else 5, (1, 1): 36,
+                (1, 2): 10 if q else 34, (2, 1): 10 if q else 34},
         "lap_band": (33, 36) if q else None,
-        "san": {(2, 2): 24 if q else 40, (3, 3): 9 if q else 12, (4, 4): 5 if q else 6, (1, 1): 40, (2, 3): 6 if q else 8, (3, 2): 6 if q else 8, (5, 5): 4 if q else 5},
-        "san_band": (25, 40) if q else None,
+        "san": {(2, 2): 16 if q else 40, (3, 3): 8 if q else 12, (4, 4): 4 if q else 6, (1, 1): 40, (2, 3): 5 if q else 8, (3, 2): 5 if q else 8, (5, 5): 3 if q else 5},
+        "san_band": (17, 40) if q else None,
         "san_hw": (1, 3) if q else (1, 2, 3, 16),
-        "haf_T": {1: 8, 2: 8, 3: 8, 4: 8} if q else {1: 12, 2: 10, 3: 10, 4: 10, 5: 8, 6: 6},
+        "haf_T": {1: 8, 2: 8, 3: 7, 4: 6} if q else {1: 12, 2: 10, 3: 10, 4: 10, 5: 8, 6: 6},
         "haf_cutoffs": (1, 2, 3, 5, 8) if q else tuple(range(1, 9)),
-        "haf_batch_T": 5 if q else 6,
-        "jaxhaf_T": 4 if q else 6,
+        "haf_batch_T": 4 if q else 6,
+        "jaxhaf_T": 3 if q else 6,
         "tor_n": 5 if q else 6,
         "pf_n": 8,
     }
@@ -214,6 +214,7 @@ def run(ctx, builddir):
         "explanation": "evaluations = kernel calls whose result was compared with the exact reference (pybind / numba / JAX entry points) "
         "plus executions of the same inputs in the sanitizer drivers",
         "items": len(items),
+        "bounds": {k: (v if not isinstance(v, dict) else {str(kk): vv for kk, vv in v.items()}) for k, v in _tier(ctx).items() if k != "q"},
     }
 
 
@@ -364,6 +365,15 @@ def evaluate_case(case):
 
 
 def replay(ctx, case, signature):
+    if "kind" not in case and "item" in case:
+        # a process_crash recorded by core.pmap: the whole work item killed its worker twice
+        from mc import build, c04_child
+
+        item = case["item"]
+        exported, crash = c04_child.run_contained("item", ctx.tier, ctx.seed, build.ensure_built(), item)
+        if crash is not None:
+            ctx.violation(signature, case, "work item %r still kills the process (exit status %s): %s" % (item, crash.get("returncode"), crash.get("stderr_tail", "")[-300:]))
+        return
     if case.get("contained"):
         from mc import build, c04_child
 
